@@ -176,6 +176,8 @@ SCRIPTS = [
     ["append2", "append2", "delete", "expire+", "age", "gc", "delete", "expire+", "age", "gc"],
     # delete + append in one commit, older snapshots still retained, collection
     ["append", "append2", "delete+append", "age", "gc", "delsnap", "age", "gc"],
+    # transactions open for hours (their files AND markers two hours old, far below the 24 h abandonment timeout) across collections
+    ["append", "opentx", "age", "gc", "opentx", "age", "gc", "append", "gc"],
 ]
 
 
